@@ -148,7 +148,7 @@ func (k *checker) meshRules() {
 	}
 	c.R.Extra["mesh_pool_methods"] = len(pools)
 	c.R.Extra["mesh_parallel_wrappers"] = wrappers
-	c.R.Floor("SYM-PART", 7)
+	c.R.Floor("SYM-PART", 12)
 	c.R.Floor("SHAPE-2", 7)
 	c.R.Floor("CONC-2", 6)
 	c.R.Floor("CONC-3", 6)
@@ -212,6 +212,11 @@ func (pa *poolAnalysis) sizeParamIndex() int {
 	}
 	ev := newEvaluator()
 	r, _ := ev.root(fn).resolve(cl.hi)
+	if _, ok := r.(*ssa.Parameter); !ok {
+		if pb := paramBehind(cl.hi); pb != nil {
+			r = pb
+		}
+	}
 	for i, prm := range fn.Params {
 		if ssa.Value(prm) == r {
 			return i
